@@ -529,7 +529,73 @@ class FirstOrZero(Spec):
 def _native_none():
     ns = {}; exec(SRC_NONE, ns); return ns['first_or_zero'](None) == 0 and ns['first_or_zero']([]) == 0
 
-CASES = [('first_member', SRC_SETLIST, SetList, _native_setlist), ('first_member', SRC_SETLIST, SetListEmpty, _native_setlist_empty), ('drop', SRC_REMOVE, Drop, _native_drop), ('drop_unguarded', SRC_REMOVE_U, DropUnguarded, _native_drop_u), ('put2', SRC_PUT2, Put2, _native_put2), ('getk', SRC_GETK, GetK, _native_getk), ('seen', SRC_SEEN, Seen, _native_seen), ('safe_get', SRC_SAFE, SafeGet, _native_safe), ('use', SRC_USE, Use, _native_use),
+
+SRC_POPEXT = '''
+def pop_ext(xs, ys):
+    ys.append(xs.pop())
+    xs += ys
+    return xs
+'''
+class PopExt(Spec):
+    """xs.pop() returns the LAST element and shortens the list by one; a following `xs += ys` appends behind the shortened list"""
+    def bind(self, E, p):
+        h = p.heap
+        for nme in ('$len', '$items:int'): h.arr(nme)
+        self.h0 = h.copy(); self.xs = z3.Const('xs', Ref); self.ys = z3.Const('ys', Ref); p.env['xs'] = V('list[int]', self.xs); p.env['ys'] = V('list[int]', self.ys)
+        self.n0 = ln(self.h0, self.xs); self.m0 = ln(self.h0, self.ys); self.it0 = items_i(self.h0, self.xs); self.jt0 = items_i(self.h0, self.ys)
+        p.pc += [self.xs != NULL, self.ys != NULL, self.xs != self.ys, self.h0.alloc[self.xs], self.h0.alloc[self.ys], self.n0 >= 1, self.m0 >= 0]
+    def bounds(self, E): return [self.n0, self.m0]
+    def may_write(self, E, p, ref, field): return Or(ref == self.xs, ref == self.ys)
+    def ensures(self, E, ctx, p, ret):
+        h = p.heap; n1 = ln(h, self.xs); it1 = items_i(h, self.xs)
+        return [('T:length', n1 == self.n0 - 1 + self.m0 + 1), ('T:kept-prefix', ctx.forall(1, lambda j: Implies(And(0 <= j, j < self.n0 - 1), it1[j] == self.it0[j]))),
+                ('T:then-ys', ctx.forall(1, lambda j: Implies(And(0 <= j, j < self.m0), it1[self.n0 - 1 + j] == self.jt0[j]))), ('T:popped-element-last', it1[n1 - 1] == self.it0[self.n0 - 1]),
+                ('F:popped-element-still-at-its-place', it1[self.n0 - 1] == self.it0[self.n0 - 1])]
+def _native_popext():
+    ns = {}; exec(SRC_POPEXT, ns); return ns['pop_ext']([1, 2], [7])[1] != 2
+class PopEmpty(PopExt):
+    """pop() on a possibly empty list: the implicit IndexError obligation must fail"""
+    def bind(self, E, p):
+        PopExt.bind(self, E, p); p.pc[:] = [c for c in p.pc if not c.eq(self.n0 >= 1)] + [self.n0 >= 0]
+    def ensures(self, E, ctx, p, ret): return [('T:length', ln(p.heap, self.xs) >= 0)]
+def _native_popempty():
+    ns = {}; exec(SRC_POPEXT, ns)
+    try: ns['pop_ext']([], [1]); return False
+    except IndexError: return True
+
+
+SRC_NESTROWS = '''
+def nested_rows(n, m):
+    out = []
+    for i in range(n):
+        for j in range(m):
+            if j == 0:
+                out.append([i])
+    return out
+'''
+class NestedRows(Rows):
+    """objects allocated inside a NESTED loop (on paths that end at the inner loop's preserve branch) are new in every outer iteration as well: `out[k][0] == k` is inductive,
+    `all rows are one object` and `the first row holds the last index` are false"""
+    def bind(self, E, p):
+        Rows.bind(self, E, p); self.m = z3.Int('m'); p.env['m'] = vint(self.m); p.pc.append(self.m >= 1)
+    def rows(self, ctx, h, out, upto, tag):
+        return ctx.forall(1, lambda k: Implies(And(0 <= k, k < upto), And(h.alloc[items_r(h, out)[k]], items_r(h, out)[k] != out, ln(h, items_r(h, out)[k]) == 1, items_i(h, items_r(h, out)[k])[0] == k)), tag)
+    def inv(self, E, ctx, p, pre, i):
+        h = p.heap; out = p.env['out'].term
+        return [('range', And(0 <= i, i <= self.n)), ('len', And(ln(h, out) == i, h.alloc[out], out == pre.env['out'].term)), ('T:entry-k-holds-k', self.rows(ctx, h, out, i, 'inv:rows'))]
+    def inv_in(self, E, ctx, p, pre, j):
+        h = p.heap; out = p.env['out'].term; i = pre.env['$i0'].term; cnt = i + If(j > 0, 1, 0)
+        return [('range', And(0 <= j, j <= self.m, 0 <= i, i < self.n)), ('len', And(ln(h, out) == cnt, h.alloc[out], out == pre.env['out'].term)), ('T:entry-k-holds-k', self.rows(ctx, h, out, cnt, 'inv:rows'))]
+    invariants = property(lambda self: {0: self.inv, 1: self.inv_in})
+    def ensures(self, E, ctx, p, ret):
+        h = p.heap; r = ret.term
+        return [('T:len', ln(h, r) == self.n), ('T:content', ctx.forall(1, lambda k: Implies(And(0 <= k, k < self.n), items_i(h, items_r(h, r)[k])[0] == k))),
+                ('F:rows-are-one-object', ctx.forall(2, lambda j, k: Implies(And(0 <= j, j < k, k < self.n), items_r(h, r)[j] == items_r(h, r)[k]))),
+                ('F:first-row-holds-the-last-index', Implies(self.n >= 1, items_i(h, items_r(h, r)[0])[0] == self.n - 1))]
+def _native_nested_rows():
+    ns = {}; exec(SRC_NESTROWS, ns); r = ns['nested_rows'](2, 1); return r[0] is not r[1] and r[0][0] != 1
+
+CASES = [('nested_rows', SRC_NESTROWS, NestedRows, _native_nested_rows), ('pop_ext', SRC_POPEXT, PopExt, _native_popext), ('pop_ext', SRC_POPEXT, PopEmpty, _native_popempty), ('first_member', SRC_SETLIST, SetList, _native_setlist), ('first_member', SRC_SETLIST, SetListEmpty, _native_setlist_empty), ('drop', SRC_REMOVE, Drop, _native_drop), ('drop_unguarded', SRC_REMOVE_U, DropUnguarded, _native_drop_u), ('put2', SRC_PUT2, Put2, _native_put2), ('getk', SRC_GETK, GetK, _native_getk), ('seen', SRC_SEEN, Seen, _native_seen), ('safe_get', SRC_SAFE, SafeGet, _native_safe), ('use', SRC_USE, Use, _native_use),
          ('inner_bad', SRC_INNER, InnerBad, _native_inner), ('index_of', SRC_INDEXOF, IndexOf, _native_indexof), ('evens', SRC_EVENS, Evens, _native_evens), ('guarded', SRC_GUARD, Guarded, None),
          ('half_guarded', SRC_HALFGUARD, HalfGuarded, _native_halfguard),
          ('first_or_zero', SRC_NONE, FirstOrZero, _native_none), ('zero_fill', SRC_ZERO, ZeroFill, None), ('clobber', SRC_CLOBBER, Clobber, _native_clobber), ('clobber_w', SRC_CLOBBER_W, ClobberW, _native_clobber_w),
@@ -538,7 +604,7 @@ CASES = [('first_member', SRC_SETLIST, SetList, _native_setlist), ('first_member
          ('count', SRC_COUNT, Count, _native_count), ('rows', SRC_ROWS, Rows, _native_rows), ('fresh_rows', SRC_FRESHROWS, FreshRows, _native_fresh_rows), ('chk', SRC_CHK, Chk, _native_chk),
          ('sum_to', SRC_SUMTO, SumTo, _native_sumto)]
 # obligations that must fail although their label carries no F: marker (implicit obligations of the engine)
-EXPECT_FAIL_IMPLICIT = {'LastEmpty': ('no-IndexError',), 'SetX': ('frame@',), 'GetK': ('no-KeyError',), 'HalfGuarded': ('no-IndexError',), 'DropUnguarded': ('no-ValueError',), 'SetListEmpty': ('no-IndexError',)}
+EXPECT_FAIL_IMPLICIT = {'PopEmpty': ('no-IndexError-pop',), 'LastEmpty': ('no-IndexError',), 'SetX': ('frame@',), 'GetK': ('no-KeyError',), 'HalfGuarded': ('no-IndexError',), 'DropUnguarded': ('no-ValueError',), 'SetListEmpty': ('no-IndexError',)}
 
 def run(timeout=20000, verbose=False):
     """-> (ok, n_cases, n_obligations, problems[list of str], seconds)"""
